@@ -1046,8 +1046,7 @@ def witnesses(chk):
         chk.case(("corpus-json", doc), True)
         json_case(chk, doc, "corpus")
     # known findings: reproduce on the implementation
-    for fid, docs in (("json-leading-separator", ["[,1]", '{,"a":1}']), ("json-leading-zero", ["01", "[007]"]),
-                      ("json-empty-container-whitespace", ["[ ]", "{ }"]), ("json-whitespace-before-colon", ['{"a" :1}'])):
+    for fid, docs in (("json-leading-separator", ["[,1]", '{,"a":1}']), ("json-leading-zero", ["01", "[007]"])):
         hit = all(json_impl(d)[0] != json_ref(d)[0] for d in docs)
         chk.witnesses.append({"finding": fid, "inputs": docs, "reproduced": hit})
         if hit:
